@@ -94,6 +94,18 @@ class NmpfitStrategy(HoloPyObject):
         return [val.unscale(value) for val, value in zip(self._parameters,
                                                          values)]
 
+    def _unscale_values_into_bounds(self, values):
+        # The minimizer works with scaled values inside scaled limits;
+        # scaling a bound and unscaling it again can land one unit in the
+        # last place outside the prior's support, where the prior term is
+        # infinite (the step is rejected and the fit stalls on the bound)
+        unscaled = self.unscale_pars_from_minimizer(values)
+        for i, par in enumerate(self._parameters):
+            lower = getattr(par, 'lower_bound', -np.inf)
+            upper = getattr(par, 'upper_bound', np.inf)
+            unscaled[i] = min(max(unscaled[i], lower), upper)
+        return unscaled
+
     def fit(self, model, data):
         """
         fit a model to some data
@@ -182,7 +194,7 @@ class NmpfitStrategy(HoloPyObject):
 
         def resid_wrapper(parameters, fjac=None):
             status = 0
-            out = obj_func(self.unscale_pars_from_minimizer(parameters))
+            out = obj_func(self._unscale_values_into_bounds(parameters))
             return [status, out]
 
         # now fit it
@@ -193,6 +205,6 @@ class NmpfitStrategy(HoloPyObject):
                 xtol = self.xtol, gtol = self.gtol, damp = self.damp,
                 maxiter = self.maxiter, quiet = self.quiet)
 
-        result_pars = self.unscale_pars_from_minimizer(fitresult.params)
+        result_pars = self._unscale_values_into_bounds(fitresult.params)
 
         return result_pars, fitresult
